@@ -19,6 +19,7 @@
 From Coq Require Import ZArith List Bool.
 From Sheens Require Import Model.Timers Corr.TimersCorr Proofs.TimersSpec Proofs.TimersInv
   Proofs.TimersRefine Proofs.TimersExtra Proofs.TimersHistory Proofs.TimersOracle.
+From Sheens Require Model.SioCrew Proofs.SioIdsTie.
 Import ListNotations.
 Local Open Scope Z_scope.
 
@@ -224,3 +225,16 @@ Theorem C17_sio_not_after_cancel_refuted_prefix :
   ~ (forall tr s, cexec_pre Sio cinit tr = Some s -> c_not_after_cancel s).
 Proof. exact sio_prefix_not_after_cancel_refuted. Qed.
 Print Assumptions C17_sio_not_after_cancel_refuted_prefix.
+
+(** * The machine sio's timer requests are addressed to
+    For the sio implementation a request is a message to the timers machine
+    and the pending timers are persisted as that machine's state (under its
+    id, in the binding of the same name: sio/timers_glue.go).  The id the
+    crew model uses ([SioCrew.timers_id], by which Model/SioCrew.v decides
+    that a request reached the timers) is read from the source of the tree
+    under test (Gen/Names.v: the declaration of sio.TimersMachine) and is the
+    documented one; it is not the captain's. *)
+Theorem C17_sio_timers_machine_is_documented :
+  SioCrew.timers_id = "timers"%string /\ SioCrew.timers_id <> SioCrew.captain_id.
+Proof. exact (conj (proj1 SioIdsTie.service_ids_documented) (proj2 (proj2 SioIdsTie.service_ids_documented))). Qed.
+Print Assumptions C17_sio_timers_machine_is_documented.
